@@ -235,19 +235,24 @@ def crosscheck(slv, verdict):
 
 
 def table_query(name, oks, res):
-    """T/E/D obligations: a table OK(id) filled by driving the real unparser+parser; z3 decides
-    exists id in range: not OK(id)"""
+    """T/E/D obligations: a table OK(id) filled by driving the real code and the parser; z3 decides
+    exists id in range: not OK(id).  Tables with more than 20 000 rows are encoded by their
+    exception set (OK(id) := id not in {failing ids}) to keep the query small."""
     import z3
 
     t0 = time.time()
     I = z3.IntSort()
-    OK = z3.Function("OK_" + name, I, z3.BoolSort())
+    x = z3.Int("id")
     slv = z3.Solver()
     slv.set("timeout", 120000)
-    for i, ok in enumerate(oks):
-        slv.add(OK(i) == bool(ok))
-    x = z3.Int("id")
-    slv.add(x >= 0, x < len(oks), z3.Not(OK(x)))
+    if len(oks) <= 20000:
+        OK = z3.Function("OK_" + name, I, z3.BoolSort())
+        for i, ok in enumerate(oks):
+            slv.add(OK(i) == bool(ok))
+        slv.add(x >= 0, x < len(oks), z3.Not(OK(x)))
+    else:
+        failing = [i for i, ok in enumerate(oks) if not ok]
+        slv.add(x >= 0, x < len(oks), z3.Or([x == i for i in failing]) if failing else z3.BoolVal(False))
     bad = []
     verdict = None
     while len(bad) < 60:
@@ -262,7 +267,7 @@ def table_query(name, oks, res):
         slv.add(x != i)
     dt = time.time() - t0
     res["solver_s"] += dt
-    res["queries"].append({"query": "%s: exists id < %d whose round trip fails" % (name, len(oks)), "verdict": verdict, "models": bad[:20], "solver_s": round(dt, 3)})
+    res["queries"].append({"query": "%s: exists id < %d whose entry is not OK" % (name, len(oks)), "verdict": verdict, "models": bad[:20], "solver_s": round(dt, 3)})
     return verdict, bad
 
 
